@@ -1,7 +1,8 @@
 use crate::engine::PropDef;
 
+pub mod c19;
 pub mod c20;
 
 pub fn all() -> Vec<PropDef> {
-    vec![c20::def()]
+    vec![c19::def(), c20::def()]
 }
